@@ -3,6 +3,8 @@ package main
 import (
 	"verif/core"
 	_ "verif/props/c01"
+	_ "verif/props/c04"
+	_ "verif/props/c05"
 	_ "verif/props/c06"
 	_ "verif/props/c07"
 	_ "verif/props/c08"
